@@ -220,6 +220,30 @@ def gen(tier, seed):
             syms = mk_syms(rnd, n, shape)
             cases.append(seq_case(rnd, "sq%d_%s_%s%d_%s_%d" % (ci, kind, bk, param, shape, n), kind, bk, param, syms, shape))
             ci += 1
+    # two wavelet trees alive in one process, with different Huffman codes for the symbols they share, queried alternately
+    # for the SAME symbol (per-instance state of the coder / of the nodes must not leak between structures)
+    for k in range(6 if tier == "quick" else 40):
+        kind, bk, param = rnd.choice([("WT", "RG", 20), ("WT", "RRR", 32), ("WT", "RG", 4), ("WTNP", "RG", 20)])
+        sigma = rnd.choice([3, 4, 6, 9])
+        alpha = rnd.sample(range(1, 60), sigma)
+        n = rnd.choice([40, 100, 300, 700])
+        wa = [2.0 ** (-i) for i in range(sigma)]
+        A = rnd.choices(alpha, weights=wa, k=n)
+        B = rnd.choices(alpha, weights=wa[::-1], k=n)           # reversed skew: every shared symbol gets a different codeword
+        A[:sigma], B[:sigma] = alpha, alpha[::-1]                # every symbol occurs in both (rank of an absent symbol is outside the domain)
+        cmds = ["seq_build %s %s %d %s" % (kind, bk, param, " ".join(map(str, A))), "seq_swap",
+                "seq_build %s %s %d %s" % (kind, bk, param, " ".join(map(str, B)))]
+        cur = 1
+        for _ in range(40):
+            c = rnd.choice(alpha)
+            i = rnd.randrange(n)
+            q = rnd.choice(["seq_q rank %d %d" % (c, i), "seq_q access %d" % i, "seq_q rank %d %d" % (c, n - 1)])
+            cmds += [q, "seq_swap", q if rnd.random() < 0.7 else "seq_q rank %d %d" % (c, rnd.randrange(n))]
+        # a third structure built right after a query on another one
+        cmds += ["seq_q rank %d %d" % (alpha[-1], n - 1), "seq_build %s %s %d %s" % (kind, bk, param, " ".join(map(str, B[::-1]))),
+                 "seq_q rank %d %d" % (alpha[-1], n - 1), "seq_q access 0"]
+        cases.append(Case("sp%d_%s_%s%d_%d" % (ci, kind, bk, param, n), cmds, {"kind": "seqpair", "skind": kind, "bk": bk, "param": param}))
+        ci += 1
     return cases
 
 
@@ -338,6 +362,28 @@ def evaluate_property(case, out):
                 if len(t) < 5 or t[4] != str(exp):
                     fails.append("%s %s: %s(%s) = %s, plain definition gives %d" % (tag, phase, t[1], t[2], " ".join(t[4:]) or "?", exp))
         nexp = sum(1 for c in case.cmds if c.startswith("bs_q "))
+        if nq != nexp:
+            fails.append("%s: %d of %d query lines present" % (tag, nq, nexp))
+    elif m["kind"] == "seqpair":
+        cur, parked = [], []
+        tag = "%s/%s(%d) two sequences side by side" % (m["skind"], m["bk"], m["param"])
+        for cmd, l in zip(case.cmds, lines):
+            t = l.split()
+            ct = cmd.split()
+            if ct[0] == "seq_build":
+                cur = [int(x) for x in ct[4:]]
+            elif ct[0] == "seq_swap":
+                cur, parked = parked, cur
+            elif ct[0] == "seq_q":
+                nq += 1
+                if t[0] != "seq_q" or "=" not in t:
+                    fails.append("%s: %s -> %s" % (tag, cmd, l[:80]))
+                    continue
+                exp = naive_seq(cur, t[1:t.index("=")])
+                got = t[t.index("=") + 1:]
+                if exp is not None and got != [str(exp)]:
+                    fails.append("%s: %s = %s, plain definition gives %d" % (tag, " ".join(t[1:t.index("=")]), " ".join(got) or "?", exp))
+        nexp = sum(1 for c in case.cmds if c.startswith("seq_q "))
         if nq != nexp:
             fails.append("%s: %d of %d query lines present" % (tag, nq, nexp))
     else:
